@@ -39,7 +39,7 @@ def _worker(args):
                       max_paths=item.get("max_paths", opts.get("max_paths")),
                       wall_s=item.get("wall_s", opts.get("item_wall")),
                       validate=item.get("validate", True), tol=item.get("tol", 1e-6))
-        st = ex.run()
+        st = ex.run(initial_prefix=item.get("prefix"))
         st.item = item
         st.error = None
     except BaseException as e:  # engine failure: report, never a violation
